@@ -13,7 +13,8 @@ from sx import crypto_models as M
 PROPERTY = "C15"
 LEVEL = "model_checking"
 CODE = ["yowsup/layers/protocol_media/mediacipher.py:MediaCipher.encrypt/decrypt/encrypt_*/decrypt_*"]
-BOUNDS = {"quick": "[+ flag: the instance decrypted a genuine file before the tampered one] " 
+BOUNDS = {"quick": "[+ bytearray content flag; sweep lengths 65518..65537 and 131055..131072] " 
+                   "[+ flag: the instance decrypted a genuine file before the tampered one] " 
                    "[+ shared instance: 4 operation pairs x LA in {0,15,16,33} x LB in {1,16} x pre-emption after k<=25 lines] " 
                    "(plus the same obligations with L anywhere in 0..2^20) plaintext length L in [0,80] symbolic (every residue mod 16, incl. 0 and block multiples), 4 media kinds, tamper at a symbolic position of ciphertext or tag, "
                    "truncation by 1..26 bytes, wrong key, wrong kind", "thorough": "L in [0,4096]; concrete replays additionally at every length 0..80 for each kind"}
